@@ -63,8 +63,8 @@ def classify_xff_elem(e):
         t = t[1:-1]
     if t == "":
         return "odd"
-    if re.match(r"\A:[0-9]+\Z", t):
-        return "empty_host"
+    if re.match(r"\A:[0-9]+\Z", t.strip()):
+        return "empty_host"  # (also a host part that is nothing but blanks, possible inside a quoted-string)
     if not re.match(r"\A[A-Za-z0-9.\-:\[\]]+\Z", t) or t.count("[") != t.count("]") or t in ("[]", "::", ":"):
         return "odd"
     return "ok"
@@ -86,7 +86,7 @@ def classify_forwarded_elem(e):
         if not quoted_ok(val):
             return "malformed"
         v = val[1:-1] if val.startswith('"') and len(val) >= 2 else val
-        if tok.lower() == "host" and re.match(r"\A:[0-9]+\Z", v):
+        if tok.lower() == "host" and re.match(r"\A:[0-9]+\Z", v.strip()):
             kinds.add("empty_host")
         elif tok.lower() in ("host", "for") and (not re.match(r"\A[A-Za-z0-9.\-:\[\]_]+\Z", v) or v.count("[") != v.count("]") or v in ("[]", "::", ":")):
             kinds.add("odd")
